@@ -228,9 +228,23 @@ theorem trimLoop_evolves (cfg : Cfg σ) (pins : List Nat) (l : List Nat) (c : Co
     · exact (removeClosure_evolves cfg pins c k).trans (ih _)
     · exact removeClosure_evolves cfg pins c k
 
+theorem trimScan_evolves (cfg : Cfg σ) (pins : List Nat) (l : List Nat) (c : Core σ) :
+    Evolves cfg pins c (trimScan cfg pins l c).2 := by
+  induction l generalizing c with
+  | nil => exact Evolves.refl _ _ _
+  | cons k rest ih =>
+    unfold trimScan
+    simp only []
+    split
+    · exact (removeClosure_evolves cfg pins c k).trans (ih _)
+    · exact (removeClosure_evolves cfg pins c k).trans (ih _)
+
 theorem trim_evolves (cfg : Cfg σ) (pins : List Nat) (c : Core σ) : Evolves cfg pins c (trim cfg pins c) := by
   unfold trim
-  exact (trimLoop_evolves cfg pins c.lru.pinned c).congr_right rfl rfl
+  simp only []
+  split
+  · exact (trimScan_evolves cfg pins c.lru.pinned c).congr_right rfl rfl
+  · exact (trimLoop_evolves cfg pins c.lru.pinned c).congr_right rfl rfl
 
 theorem processWrite_evolves {cfg : Cfg σ} {pins : List Nat} {c c' : Core σ} {m : WMsg}
     (h : processWrite cfg pins c m = .ok c') : Evolves cfg pins c c' := by
